@@ -1418,15 +1418,27 @@ MANIFEST_ENTRY = {
              'the off-axis closure; over the reals conic_sag_der is the derivative (HasDerivAt) of conic_sag; the polar->Cartesian '
              'gradient never divides by zero and equals the Cartesian gradient on the whole surface, vertex included; the public polar '
              'off-axis functions are the chain-rule images of the parent conic at shifted coordinates; intersect starts on the vertex '
-             'plane; Newton post-condition |F| < eps|F\'| IF the loop stops.  TRANSLATION IDENTITIES (generated = model, syntactic or '
+             'plane; Newton post-condition |F| < eps|F\'| IF the loop stops; for PLANES convergence is proved, not trusted: the Newton '
+             'loop of the model stops in its first pass with the exact intersection for every ray not parallel to the plane, every '
+             'eps > 0 and iteration budget >= 1 (plane_intersect_converges), and the translated update reaches the root in one step from '
+             'any s_j (plane_newton_one_step); for CONICS (planes and off-axis parents included) the implicit equation along a ray is the '
+             'quadratic A s^2 + 2 B s + C (conic_ray_quadratic), the closed-form point P + C/(sqrt(B^2-AC) - B) S lies on the conic '
+             '(conic_closed_form_hit), and on the vertex branch a point of the implicit conic is a point of the translated sag function '
+             '(conic_implicit_is_sag; with conic_on_surface: G = 0 <=> z = sag); WHOLE TRACE: for every prescription (any number / mix of '
+             'surfaces, shapes, orthogonal frames) the model tracer returns one hit per surface and every outgoing direction is a unit '
+             'vector, given a unit start direction and no total internal reflection (trace_unit_directions, induction over the surface '
+             'list; the model tracer is the one compared with raytrace at 1e-9).  TRANSLATION IDENTITIES (generated = model, syntactic or '
              'ring-normalised; AST facts; no content of their own): the 12 gen_* theorems and gen_structure.  COMPARED ON THE REAL CODE: '
              'the whole trace (Newton iteration, masking, index threading through n=None surfaces inside glass, batch and single-ray '
              'call forms, every spelling of typ and of P) against the Lean Float model and an independent implicit-surface oracle '
              '(on-surface residual 2e-12, unit length, mirror law, Snell with the true indices, continuation through the surface, rays '
              'against the normal, 50%..99.9% of the critical angle at sloped points); off_axis_conic_sag/der against model and numerical '
-             'derivatives; Q-type surfaces (Q2d_and_der) traced and checked against the numerical gradient of their own sag.'),
-    'note': ('NOT proved: convergence of Newton-Raphson (only its post-condition, exact arithmetic), floating-point error, the batch '
-             'masking bookkeeping, that hypot/arctan2 deliver a (cos, sin) pair, any whole-trace composition lemma; Q-type surfaces are '
+             'derivatives; Q-type surfaces (Q2d_and_der) traced and checked against the numerical gradient of their own sag; the hit '
+             'point of EVERY surface of every trace and of the direct intersect() stream against the proved closed-form intersection '
+             '(driver op hit, 1e-9): Newton must land on the root next to the vertex, not merely on the surface.'),
+    'note': ('NOT proved: convergence of Newton-Raphson on curved surfaces (post-condition in exact arithmetic + comparison with the '
+             'proved closed form for conics; proved for planes), floating-point error, the batch '
+             'masking bookkeeping, that hypot/arctan2 deliver a (cos, sin) pair, whole-trace lemmas for on-surface / Snell (unit length is proved); Q-type surfaces are '
              'not modelled in Lean (real code vs numerical gradient at 1e-7 only); eps / maxiter are not translated (a loosened stopping '
              'rule is seen through the 2e-12 on-surface residual).  Too few executed cases in any stream is a tool error (floors).'),
 }
